@@ -92,6 +92,8 @@ pub enum Op {
     BlockOn(usize, usize, usize),
     Wake(usize),
     TakeWaker(usize),
+    BlockOnSpawn(usize, usize, usize, usize),
+    WakeMine,
     TlsWith(usize),
     LazyGet(usize),
     Panic,
@@ -207,6 +209,8 @@ fn parse_op(s: &str) -> Result<Op, String> {
         "bo" => Op::BlockOn(num(a(1)?)?, num(a(2)?)?, num(a(3)?)?),
         "wk" => Op::Wake(num(a(1)?)?),
         "tkw" => Op::TakeWaker(num(a(1)?)?),
+        "bs" => Op::BlockOnSpawn(num(a(1)?)?, num(a(2)?)?, num(a(3)?)?, num(a(4)?)?),
+        "wme" => Op::WakeMine,
         "tw" => Op::TlsWith(num(a(1)?)?),
         "lz" => Op::LazyGet(num(a(1)?)?),
         "pn" => Op::Panic,
